@@ -442,7 +442,12 @@ func (c06) RunCase(c fw.Case, env *fw.Env) *fw.CaseResult {
 				so := models.SortOption{Property: sortPool[g.R.IntN(len(sortPool))], Descending: g.R.IntN(2) == 0}
 				req.Sort = append(req.Sort, so)
 				if len(req.Select) == 0 || req.Select[0] != "*" {
-					req.Select = append(req.Select, so.Property)
+					sel := so.Property
+					if i := strings.LastIndex(sel, "."); i > 0 && g.R.IntN(2) == 0 {
+						// the key is reachable through a selected ancestor map just as well
+						sel = sel[:i]
+					}
+					req.Select = append(req.Select, sel)
 				}
 			}
 		}
